@@ -678,7 +678,16 @@ func (app *App) BeginBlocker(ctx sdk.Context, req abci.RequestBeginBlock) abci.R
 	// InitMemStore, the upgrade module's downgrade check), so that figure - which is part of the
 	// block's results hash - differed between a restarted node and one that kept running.
 	// Run the begin-blockers on a throw-away meter so reported gas never depends on restarts.
-	return app.ModuleManager.BeginBlock(ctx.WithGasMeter(sdk.NewInfiniteGasMeter()), req)
+	res := app.ModuleManager.BeginBlock(ctx.WithGasMeter(sdk.NewInfiniteGasMeter()), req)
+	// The deliver-state meter itself can also read differently from node to node: in the first
+	// block of a chain it still carries what InitChain consumed and it is shared with the contexts
+	// of PrepareProposal/ProcessProposal, which only proposers and validators run - a full node or
+	// a node replaying the block after a crash does not. Zero it, so that the GasUsed reported for
+	// a transaction that fails before the ante handler is the same on every node.
+	if gm := ctx.GasMeter(); gm != nil {
+		gm.RefundGas(gm.GasConsumed(), "begin block")
+	}
+	return res
 }
 
 // EndBlocker application updates every end block
